@@ -451,20 +451,31 @@ def effOpts (_cfg : Cfg) (c : ClassMeta) : Opts := c.opts
 def fieldVisible (cfg : Cfg) (o : Opts) (f : FieldMeta) : Bool :=
   if cfg.output then !alwaysNoOutput f o else !alwaysNoInput f o
 
+def deprecatedSeg (d : Bool) : Obj := if d then [("deprecated", Json.bool true)] else []
+
+def modeSeg (m : Option (List Char)) : Obj :=
+  match m with
+  | some ['r'] => [("readOnly", Json.bool true)]
+  | some ['w'] => [("writeOnly", Json.bool true)]
+  | _ => []
+
+def exampleSeg (e : Option Json) : Obj :=
+  match e with
+  | some e => [("examples", Json.arr [e])]
+  | none => []
+
+def aliasSeg (attname : String) (aliases : List String) : Obj :=
+  if aliases.isEmpty then [] else
+    [("x-var-name", Json.str attname), ("x-aliases", strArr (sortStrings aliases)),
+     ("aliases", strArr (sortStrings aliases))]
+
 /-- annotations `generate_for_field` adds to the field type's schema (generator.py:255-287) -/
 def fieldExtras (f : FieldMeta) : Obj :=
-  optStr "title" f.title ++ optStr "description" f.description ++
-  (if f.deprecated then [("deprecated", Json.bool true)] else []) ++
-  (match f.mode with
-   | some ['r'] => [("readOnly", Json.bool true)]
-   | some ['w'] => [("writeOnly", Json.bool true)]
-   | _ => []) ++
-  (match f.exampleV with
-   | some e => [("examples", Json.arr [e])]
-   | none => []) ++
-  (if f.aliases.isEmpty then [] else
-    [("x-var-name", Json.str f.attname), ("x-aliases", strArr (sortStrings f.aliases)),
-     ("aliases", strArr (sortStrings f.aliases))])
+  optStr "title" f.title ++ optStr "description" f.description ++ deprecatedSeg f.deprecated ++
+  modeSeg f.mode ++ exampleSeg f.exampleV ++ aliasSeg f.attname f.aliases
+
+def extrasKeys : List String :=
+  ["title", "description", "deprecated", "readOnly", "writeOnly", "examples", "x-var-name", "x-aliases", "aliases"]
 
 /-- is the field listed under `required` (generator.py:325-331, after `fixes/C13-output-required.patch`:
 in the output view a default counts only when the parser actually fills it in) -/
@@ -799,6 +810,91 @@ def conformsFields (R : Rx) (fs : List Fld) (kvs : List (String × PV)) : Bool :
 termination_by structural fs
 end
 
+/-! ## the two ways a published value is known to fall outside its schema (known findings) -/
+
+mutual
+/-- no `Decimal` in `r` is published as a string (`from_decimal`: js-unsafe magnitude, NaN, ±Infinity) -/
+def safeDecimals (r : PV) : Bool :=
+  match r with
+  | .dec n _ => !jsUnsafe n
+  | .decSpecial _ => false
+  | .enumv v => safeDecimals v
+  | .list xs => safeList xs
+  | .tuple xs => safeList xs
+  | .set xs => safeList xs
+  | .dict kvs => safeDict kvs
+  | .inst kvs => safeInst kvs
+  | _ => true
+termination_by structural r
+def safeList (xs : List PV) : Bool :=
+  match xs with
+  | [] => true
+  | x :: rest => safeDecimals x && safeList rest
+termination_by structural xs
+def safeDict (kvs : List (Key × PV)) : Bool :=
+  match kvs with
+  | [] => true
+  | (_, v) :: rest => safeDecimals v && safeDict rest
+termination_by structural kvs
+def safeInst (kvs : List (String × PV)) : Bool :=
+  match kvs with
+  | [] => true
+  | (_, v) :: rest => safeDecimals v && safeInst rest
+termination_by structural kvs
+end
+
+mutual
+/-- at every `oneOf` the value meets on its way through `t`, at most one argument's *schema* accepts it
+(the parser's `^` counts accepting *parsers*; a schema can be weaker than its parser — `length`,
+`decimal_places`, `max_digits` have no keyword) -/
+def oneOfOk (C : Ctx) (cfg : Cfg) (t : Ty) (r : PV) : Bool :=
+  match t with
+  | .seq _ _ _ item => (match elemsOf r with
+    | some xs => xs.all fun x => oneOfOk C cfg item x
+    | none => true)
+  | .tup _ _ items => (match r with
+    | .tuple xs => oneOfOkZip C cfg items xs
+    | _ => true)
+  | .map _ _ _ val => (match r with
+    | .dict kvs => kvs.all fun kv => oneOfOk C cfg val kv.2
+    | _ => true)
+  | .logic op ts =>
+    (op != .oneOf || decide (validateCount C (genList cfg ts) (encode r) ≤ 1)) && oneOfOkAll C cfg ts r
+  | .data _ fields addTy => (match r with
+    | .inst kvs => oneOfOkFields C cfg fields kvs &&
+        kvs.all fun kv => (fieldNames fields).contains kv.1 || oneOfOk C cfg addTy kv.2
+    | _ => true)
+  | _ => true
+termination_by structural t
+def oneOfOkZip (C : Ctx) (cfg : Cfg) (ts : List Ty) (xs : List PV) : Bool :=
+  match ts with
+  | [] => true
+  | t :: rest => (match xs with
+    | [] => true
+    | x :: xs' => oneOfOk C cfg t x && oneOfOkZip C cfg rest xs')
+termination_by structural ts
+def oneOfOkAll (C : Ctx) (cfg : Cfg) (ts : List Ty) (r : PV) : Bool :=
+  match ts with
+  | [] => true
+  | t :: rest => oneOfOk C cfg t r && oneOfOkAll C cfg rest r
+termination_by structural ts
+def oneOfOkFields (C : Ctx) (cfg : Cfg) (fs : List Fld) (kvs : List (String × PV)) : Bool :=
+  match fs with
+  | [] => true
+  | .mk m ty :: rest =>
+    (match kvs.lookup m.name with
+     | some v => oneOfOk C cfg ty v
+     | none => true) && oneOfOkFields C cfg rest kvs
+termination_by structural fs
+end
+
+namespace KnownDefect
+/-- `decimal-unsafe-string` -/
+def unsafeDecimal (r : PV) : Bool := !safeDecimals r
+/-- `oneof-weaker-branch` -/
+def oneOfOverlap (C : Ctx) (cfg : Cfg) (t : Ty) (r : PV) : Bool := !oneOfOk C cfg t r
+end KnownDefect
+
 /-! ## the property's vocabulary for the structure clauses (written from docs/en/references/field.md, options.md) -/
 
 namespace Spec
@@ -980,7 +1076,7 @@ def wfTy (t : Ty) : Bool :=
     (p == .list || p == .set || p == .tuple) && consOk arrayCons cs && metaOk m "array" && wfTy item
   | .tup m cs items => consOk arrayCons cs && metaOk m "array" && !items.isEmpty && wfTys items
   | .map m cs key val => consOk objectCons cs && metaOk m "object" && wfTy key && wfTy val
-  | .enum _ => true
+  | .enum e => (enumPrim e).isSome
   | .logic _ ts => !ts.isEmpty && wfTys ts
   | .data c fields addTy =>
     (match c.opts.mode with
